@@ -25,6 +25,7 @@ def dispatch (line : String) : String :=
     | none =>
     match kind with
     | "cmp3" => Drivers.C16.handle args
+    | "cmpir" => Drivers.C16.handleCmpir args
     | "eval" => Drivers.Eval.handle args
     | "batch" => Drivers.Run.handleBatch args
     | "incr" => Drivers.Run.handleIncr args
